@@ -165,24 +165,30 @@ FirstWhy(words, asAssign) ==
 
 Result(ok, why, f) == [ok |-> ok, why |-> why, f |-> f]
 
+(* reading of already delimited words: L = Lex(t), as arguments of an      *)
+(* ordinary (asAssign = FALSE) or of a declaration utility (TRUE)          *)
+ReadWords(L, asAssign) ==
+  IF ~L.ok THEN Result(FALSE, L.why, <<>>)
+  ELSE LET y == FirstWhy(L.words, asAssign) IN
+       IF y # "" THEN Result(FALSE, y, <<>>)
+       ELSE Result(TRUE, "", [k \in 1..Len(L.words) |-> Chars(L.words[k])])
+
+(* reading of a text glued to `name=`: L = LexGlued(t); the first word is  *)
+(* the value (possibly empty): tilde-prefixes at its start and after each  *)
+(* unquoted `:`; further words are arguments of the same command           *)
+ReadValue(L) ==
+  IF ~L.ok THEN Result(FALSE, L.why, <<>>)
+  ELSE LET ws == L.words
+           v == ws[1]
+           tv == \E k \in 1..Len(v) : Unq(v, k, TILDE) /\ (k = 1 \/ Unq(v, k - 1, COLON))
+           y == IF tv THEN "tilde"
+                ELSE IF HasPattern(v) THEN "pattern" ELSE IF HasBrace(v) THEN "brace"
+                ELSE FirstWhy(Tail(ws), TRUE)
+       IN IF y # "" THEN Result(FALSE, y, <<>>)
+          ELSE Result(TRUE, "", [k \in 1..Len(ws) |-> Chars(ws[k])])
+
 Read(ctx, t) ==
-  IF ctx = "value"
-  THEN LET L == LexGlued(t) IN
-       IF ~L.ok THEN Result(FALSE, L.why, <<>>)
-       ELSE LET ws == L.words IN          \* ws[1] is the value (possibly empty)
-            (* the value itself: tilde at its start and after unquoted `:` *)
-            LET v == ws[1]
-                tv == \E k \in 1..Len(v) : Unq(v, k, TILDE) /\ (k = 1 \/ Unq(v, k - 1, COLON))
-                y == IF tv THEN "tilde"
-                     ELSE IF HasPattern(v) THEN "pattern" ELSE IF HasBrace(v) THEN "brace"
-                     ELSE FirstWhy(Tail(ws), TRUE)
-            IN IF y # "" THEN Result(FALSE, y, <<>>)
-               ELSE Result(TRUE, "", [k \in 1..Len(ws) |-> Chars(ws[k])])
-  ELSE LET L == Lex(t) IN
-       IF ~L.ok THEN Result(FALSE, L.why, <<>>)
-       ELSE LET y == FirstWhy(L.words, ctx = "decl") IN
-            IF y # "" THEN Result(FALSE, y, <<>>)
-            ELSE Result(TRUE, "", [k \in 1..Len(L.words) |-> Chars(L.words[k])])
+  IF ctx = "value" THEN ReadValue(LexGlued(t)) ELSE ReadWords(Lex(t), ctx = "decl")
 
 ReadsAs(ctx, q, s) == LET r == Read(ctx, q) IN r.ok /\ r.f = <<s>>
 
